@@ -42,6 +42,9 @@ def run(F, rep, tier):
     # while the parameter itself still unifies with an impure argument
     import c02
     c02.copy_discipline(F, rep, only_generalised=True)
+    # `known to be pure` includes the library: an external declared `pu` does not change what it is given
+    import c18
+    c18.purity_decl(F, rep)
 
 
 def assignability(F, rep):
